@@ -62,9 +62,9 @@ type c13Snap struct {
 }
 
 type c13 struct {
-	r  *Run
-	f  *Fix
-	tr int // traces started
+	r     *Run
+	f     *Fix
+	tr    int // traces started
 	onFix int
 
 	// configuration of the current trace
@@ -109,7 +109,7 @@ func c13Int(s string) math.Int {
 	return v
 }
 func c13Raw(d math.LegacyDec) string { return d.BigInt().String() }
-func p10(n int) math.Int           { return math.NewIntWithDecimal(1, n) }
+func p10(n int) math.Int             { return math.NewIntWithDecimal(1, n) }
 
 func (c *c13) k() *irokeeper.Keeper { return c.f.App.IROKeeper }
 
